@@ -240,7 +240,7 @@ func (w *World) MonitorFail(f *Fake, kill bool) {
 	}
 	f.mu.Unlock()
 	if c != nil {
-		if w.R.Bool() {
+		if w.Net || w.R.Bool() {
 			c.InjectMonitor(fmt.Errorf("Ping timeout"))
 		} else {
 			// a dropped connection: the rpc client notifies the close channel, the monitor then reports nil
@@ -259,7 +259,22 @@ func (w *World) Restart(f *Fake) {
 	c := f.conn
 	f.mu.Unlock()
 	// the previous attachment's single monitor event must have been consumed
-	if c != nil {
+	if c != nil && c.net {
+		// behind the real backend: the controller has acted on the lost connection when it no longer lists the replica
+		for i := 0; i < 3000 && c.Signalled(); i++ {
+			listed := false
+			for _, r := range w.C.VerifState().Replicas {
+				if r.Address == f.Addr {
+					listed = true
+				}
+			}
+			if !listed {
+				break
+			}
+			time.Sleep(time.Millisecond)
+		}
+		c.drop()
+	} else if c != nil {
 		for i := 0; i < 3000; i++ {
 			if !c.Signalled() || (atomic.LoadInt32(&c.Delivered) != 0 && len(c.monitorChan) == 0) {
 				break
